@@ -100,6 +100,18 @@ def tool(name):
     os.utime(d)
     return out
 
+def tool_san(name):
+    """one of the repository's executables built with AddressSanitizer + UndefinedBehaviourSanitizer (native confirmation of
+    crashes and undefined behaviour the engine reports)"""
+    srcs = [os.path.join(REPO, 'hex.cpp'), os.path.join(REPO, name + '.cpp')]
+    cmd = ['clang++-14', '-std=c++17', '-O1', '-g', '-w', '-fsanitize=address,undefined', '-fno-sanitize-recover=all', '-fno-omit-frame-pointer', '-I' + REPO]
+    d = _dir('toolsan', _key(cmd + [name]))
+    out = os.path.join(d, name)
+    if not os.path.exists(out):
+        _run(cmd + srcs + ['-o', out + '.tmp']); os.replace(out + '.tmp', out)
+    os.utime(d)
+    return out
+
 def verilate(top, sources, prefix, extra=()):
     """run verilator --cc on sources from /repo; returns the obj dir with generated C++"""
     srcs = [s if os.path.isabs(s) else os.path.join(REPO, s) for s in sources]
